@@ -293,6 +293,45 @@ theorem binding_name_link_unguarded_witness :
         (pruneProject { wCfgInt with display := [.pub, .priv] } (inheritProject wInheritedBinding 8))
       = [(3, 4, 3), (5, 4, 3)] := by decide
 
+/-- Tie to the source (re-probed on every run, round 6): `BaseNode.__init__` of `ford/graphs.py` - the constructor every
+    graph node class runs first - on copies of real objects of the probe project (one with a URL and one without
+    for every class that has them) x `visible` true / false / absent x the parent's `visible` true / false / absent:
+    the node carries a `URL` attribute exactly when `nodeLinked` says so - the entity has a URL, its `visible` is not
+    false and, for a type-bound procedure (whose URL is an anchor on the page of the declaring type), the parent's
+    `visible` is not false either - and the attribute is then `parent_dir` + the entity's own URL. -/
+theorem graph_node_probe_links_only_shown :
+    C05.graphNodeProbe.all graphNodeRowOk = true ∧ C05.graphNodeProbe.length = 174
+    ∧ (C05.graphNodeProbe.filter fun r => r.2.1).length = 9
+    ∧ (C05.graphNodeProbe.filter fun r => r.2.2.2.2.2.1).length = 96 := by decide +kernel
+
+/-- **Graph nodes never point at pages of unselected entities** (clause "links and graph nodes never point at
+    pages of unselected entities"; full strength, any project, any rendered tree `q`, nodes of removed entities
+    included): the page a node links to is among `pageIds q`. -/
+theorem graph_node_urls (orig q es : List Ent) (x pg : Nat) (h : (x, pg) ∈ nodeUrlsOf orig q es) :
+    pg ∈ pageIds q :=
+  mem_nodeUrlsOf orig q x pg es h
+
+/-- ... and after `correlate` + `prune`, for every configuration and every well-formed project (nodes are made of
+    every entity of the project as `correlate` left it, pruned or not): it is the page of a **selected** entity. -/
+theorem graph_node_urls_point_at_selected_pages (cfg : Cfg) (p : List Ent) (fuel : Nat)
+    (hc : cfgOk cfg = true) (hw : wfProject p = true)
+    (hf : cfg.fileInherits = true ∨ noFileDisplay (inheritProject p fuel) = true) (x pg : Nat)
+    (h : (x, pg) ∈ nodeUrlsOf p (pruneProject cfg (inheritProject p fuel)) (inheritProject p fuel)) :
+    pg ∈ selPages cfg (inheritProject p fuel) := by
+  rw [← pageIds_pruneProject cfg hc _ (wfProject_inheritProject p hw fuel) hf]
+  exact mem_nodeUrlsOf p _ x pg _ h
+
+/-- non-vacuity / what the gate does: module with the private type 3 (binding 4), the public type 5 extending it
+    and the private subroutine 7, `display: public`: the nodes of the file, the module and type 5 link to their
+    pages; the nodes of the removed type 3, of the removed subroutine 7 and of the binding 4 (kept by type 5, but
+    declared by the unshown type 3) carry no URL.  With `display: public, private` all of them do. -/
+theorem graph_node_gate_witness :
+    nodeUrlsOf wInheritedBinding (pruneProject wCfgInt (inheritProject wInheritedBinding 8))
+      (inheritProject wInheritedBinding 8) = [(1, 1), (2, 2), (5, 5)]
+    ∧ nodeUrlsOf wInheritedBinding
+        (pruneProject { wCfgInt with display := [.pub, .priv] } (inheritProject wInheritedBinding 8))
+        (inheritProject wInheritedBinding 8) = [(1, 1), (2, 2), (3, 3), (4, 3), (5, 5), (4, 3), (7, 7)] := by decide
+
 /-- **`extends(...)` links** (partial: projects without block data units): the type named in the
     `extends(...)` of a type is printed as a link only if it is `visible`, and outside block data `visible` is
     set by a `prune()` on what it keeps: the linked type survived `prune()` (so, by the selection theorems, it is
